@@ -287,7 +287,17 @@ class Ctx:
         """cases: list of list of ints -> list of list of ints (one per case)."""
         exe = os.path.join(VERIF, "ocaml", "_build", "modelrun")
         inp = "\n".join(" ".join(str(x) for x in c) for c in cases) + "\n"
-        rc, out, err = sh([exe, runner], input=inp, timeout=timeout)
+        # the extracted model recurses structurally (not tail-recursively) over long op lists: give it a large stack
+        def big_stack():
+            import resource
+            soft, hard = resource.getrlimit(resource.RLIMIT_STACK)
+            want = 4 << 30
+            resource.setrlimit(resource.RLIMIT_STACK, (want if hard == resource.RLIM_INFINITY else min(want, hard), hard))
+        try:
+            p = subprocess.run([exe, runner], input=inp, timeout=timeout, stdout=subprocess.PIPE, stderr=subprocess.PIPE, text=True, preexec_fn=big_stack)
+            rc, out, err = p.returncode, p.stdout, p.stderr
+        except subprocess.TimeoutExpired:
+            rc, out, err = -9, "", "timeout"
         if rc != 0:
             raise RuntimeError("modelrun %s failed rc=%s: %s" % (runner, rc, err[-1000:]))
         lines = out.split("\n")
